@@ -38,11 +38,12 @@ import repo
 import tlc
 
 NIL = {"ty": "nil", "i": 0}
+JOBS = max(1, int(os.environ.get("VERIF_JOBS") or 16))      # child interpreters / pool processes run at once
 CHILD = os.path.join(repo.HARNESS, "c06_child.py")
 
 # watchdog (seconds of silence of a child while this process itself is being scheduled normally)
-SILENCE = 12.0
-STARTUP = 600.0
+SILENCE = 20.0
+STARTUP = 1800.0
 BUSY_CAP = 240.0          # a child that is silent but burning CPU is given this long
 CHILD_STUCK = 40.0        # in-child: threads inside calls without any event although the controller runs
 LONG = 1000               # events; far above the longest behaviour of LazySeq.tla for any generated scenario
@@ -59,11 +60,13 @@ _tlc_n = [0]
 
 def run_tlc(module, cfg, workers=4, timeout=3000, env=None, heap=None):
     import shutil
+    if JOBS < 16:
+        workers = min(workers, 4)
     with _tlc_lock:
         _tlc_n[0] += 1
         meta = os.path.join(repo.WORK, "tlc", "c06_%d_%d" % (os.getpid(), _tlc_n[0]))
     os.makedirs(meta, exist_ok=True)
-    cmd = ["java", "-XX:+UseParallelGC"] + (["-Xmx" + heap] if heap else []) + [
+    cmd = ["java", "-XX:+UseParallelGC", "-XX:ParallelGCThreads=%d" % max(2, min(workers, 4))] + (["-Xmx" + heap] if heap else []) + [
         "-cp", tlc.JAR, "tlc2.TLC", "-workers", str(workers), "-metadir", meta, "-noGenerateSpecTE",
         "-config", cfg, module + ".tla"]
     e = dict(os.environ)
@@ -620,7 +623,8 @@ def _any_runnable(pid):
     return False
 
 
-def run_children(scs, max_hangs, nslots=16, per_batch=40):
+def run_children(scs, max_hangs, nslots=None, per_batch=40):
+    nslots = nslots or JOBS
     q = queue.Queue()
     for off in range(0, len(scs), per_batch):
         q.put(scs[off:off + per_batch])
@@ -692,7 +696,7 @@ def classify(chk, results):
         return name, n, r
     out = {}
     accepted = collections.defaultdict(set)
-    with cf.ThreadPoolExecutor(8) as ex:
+    with cf.ThreadPoolExecutor(8 if JOBS >= 16 else 2) as ex:
         for name, n, r in ex.map(one, jobs):
             chk.add_tlc("LazySeqImpl_Trace[%s,n=%d]" % (name, n), r)
             accepted[name] |= set(r.tagged("ACC")) | set(r.tagged("HNG"))
@@ -801,8 +805,8 @@ def run(chk):
         "child used no CPU" % SILENCE]
     demand_env()
     ctx = mp.get_context("fork")
-    pool = ctx.Pool(16)
-    ex = cf.ThreadPoolExecutor(8)
+    pool = ctx.Pool(JOBS)
+    ex = cf.ThreadPoolExecutor(6 if JOBS >= 16 else 2)      # TLC jobs running at once
     t0 = time.time()
     gen = [ex.submit(run_gen, c) for c in gen_configs(chk.tier)]
     design = [ex.submit(run_design, j) for j in design_jobs(chk.tier)]
@@ -816,7 +820,7 @@ def run(chk):
     t2 = time.time()
     for i, s in enumerate(scs):
         s["id"] = i + 1
-    cap = 2600 if chk.tier == "quick" else 40000
+    cap = 2600 if chk.tier == "quick" else 30000
     chk.extra["scenarios_generated"] = len(scs)
     if len(scs) > cap:
         import random
@@ -897,17 +901,20 @@ def selftest(chk):
         # corrupted: another element is returned to the second consumer
         10: [ev("call", 1, "first", 1), ev("pstart", 1, c=1), ev("pend", 1, c=1), ev("ret", 1, res=I(1)),
              ev("call", 2, "first", 1), ev("ret", 2, res=I(2))],
+        # frozen before the producer could log its start / after it logged its end (it is at Python level there)
+        11: [ev("call", 1, "first", 1), ev("call", 2, "first", 1)],
+        12: [ev("call", 1, "first", 1), ev("pstart", 1, c=1), ev("pend", 1, c=1), ev("call", 2, "first", 1)],
     }
 
     def mk(dl, de):
-        return [{"id": i, "n": 2, "devlock": dl, "deverr": de, "hang": i == 4, "ev": e} for i, e in sorted(T.items())]
+        return [{"id": i, "n": 2, "devlock": dl, "deverr": de, "hang": i in (4, 11, 12), "ev": e} for i, e in sorted(T.items())]
     p = tlc.write_json("c06_selftest", mk(False, False))
     r = run_tlc("LazySeq_Trace", "LazySeq_Trace.cfg", env={"TRACE_FILE": p})
     got = sorted(set(r.tagged("ACC")))
     ok = got == [1, 3, 5, 6, 8]
     print("LazySeq_Trace accepts", got, "expected [1, 3, 5, 6, 8]")
-    want = {(False, False): ([1, 3, 5, 6, 8], []), (True, False): ([1, 3, 5, 6, 8], [4]),
-            (False, True): ([1, 2, 5, 6, 8], []), (True, True): ([1, 2, 5, 6, 8], [4])}
+    want = {(False, False): ([1, 3, 5, 6, 8], []), (True, False): ([1, 3, 5, 6, 8], [4, 11, 12]),
+            (False, True): ([1, 2, 5, 6, 8], []), (True, True): ([1, 2, 5, 6, 8], [4, 11, 12])}
     for (dl, de), (wacc, whng) in want.items():
         p = tlc.write_json("c06_selftest", mk(dl, de))
         r = run_tlc("LazySeqImpl_Trace", "LazySeqImpl_Trace.cfg", env={"TRACE_FILE": p})
